@@ -296,6 +296,15 @@ func classifyH(c CaseH) core.Class {
 		}
 	}
 	cl.Labels = append(cl.Labels, fmt.Sprintf("listeners:%d", n))
+	{
+		var hl []string
+		for _, l := range c.Listeners {
+			if !l.SMB {
+				hl = append(hl, hostLabels(l.HTTP.Hosts)...)
+			}
+		}
+		cl.Labels = append(cl.Labels, uniqS(hl)...)
+	}
 	if mixed {
 		cl.Labels = append(cl.Labels, "http+smb")
 	}
